@@ -1,35 +1,70 @@
 -------------------------------- MODULE Trace --------------------------------
 (***************************************************************************)
-(* Observation of executions recorded from the real raft-rs code.           *)
+(* Trace validation of executions recorded from the real raft-rs code.      *)
 (* Reads an ndjson trace written by harness/simrun (one line per event;     *)
-(* runs separated by Reset lines), adopts the projected implementation      *)
-(* state after every event, maintains the ghost history of Props.tla and    *)
-(* evaluates every property predicate on every state of the execution.      *)
-(* Each violated predicate is printed as                                     *)
-(*    <<"VIOLATION", {names}, line, run, seq>>                               *)
-(* and the walk continues, so one pass reports everything.                   *)
+(* runs separated by Reset lines).  For every event it                      *)
+(*  (1) computes the successor of the acting node with the specification    *)
+(*      (Node.tla / RawNodeOps.tla) from the previous implementation state  *)
+(*      and the logged arguments and compares it, field by field, with the  *)
+(*      projected implementation state: a difference is printed as          *)
+(*         <<"DRIFT", event, {fields}, line, run, seq>>                      *)
+(*  (2) adopts the implementation state, updates the ghost history and      *)
+(*      evaluates every property predicate of Props.tla on it:               *)
+(*         <<"VIOLATION", {names}, line, run, seq>>                          *)
+(* and continues, so one pass reports everything.                            *)
 (***************************************************************************)
-EXTENDS Props, Json, IOUtils
+EXTENDS Props, RawNodeOps, Json, IOUtils
 
 Rec == ndJsonDeserialize(IOEnv.TRACE)
+CheckConformance == IF "CONFORM" \in DOMAIN IOEnv THEN IOEnv.CONFORM # "0" ELSE TRUE
 
-VARIABLES l, run
+VARIABLES l, run, rdi
 
-tvars == <<pvars, l, run>>
+tvars == <<pvars, l, run, rdi>>
 
+-----------------------------------------------------------------------------
+(* JSON view -> specification values *)
 ConfOf(c) == [voters |-> Range(c.voters), outgoing |-> Range(c.outgoing),
               learners |-> Range(c.learners), learnersNext |-> Range(c.learnersNext),
               autoLeave |-> c.autoLeave]
-PrOf(s) == [j \in {s[x].id : x \in DOMAIN s} |-> s[CHOOSE x \in DOMAIN s : s[x].id = j]]
+SnapOf(s) == [i |-> s.i, t |-> s.t, conf |-> ConfOf(s.conf), data |-> s.data]
+MsgOf(m) == [m EXCEPT !.snap = SnapOf(m.snap)]
+MsgsOf(ms) == [k \in DOMAIN ms |-> MsgOf(ms[k])]
+InsOf(x) == [start |-> x.start, count |-> x.count, cap |-> x.cap, icap |-> x.icap, buf |-> x.buf]
+PrRecOf(p) == [matched |-> p.matched, next |-> p.next, state |-> p.state, paused |-> p.paused,
+               pendSnap |-> p.pendSnap, pendReqSnap |-> p.pendReqSnap, active |-> p.active,
+               ins |-> InsOf(p.ins), cg |-> p.cg, ci |-> p.ci]
+PrOf(s) == [j \in {s[x].id : x \in DOMAIN s} |-> PrRecOf(s[CHOOSE x \in DOMAIN s : s[x].id = j])]
 VotesOf(s) == [j \in {s[x].id : x \in DOMAIN s} |-> s[CHOOSE x \in DOMAIN s : s[x].id = j].v]
-NodeOf(v) == [v EXCEPT !.conf = ConfOf(v.conf), !.pr = PrOf(v.pr), !.votes = VotesOf(v.votes)]
+RoOf(r) == [queue |-> r.queue,
+            pending |-> [x \in {r.pending[k].ctx : k \in DOMAIN r.pending} |->
+                           LET p == r.pending[CHOOSE k \in DOMAIN r.pending : r.pending[k].ctx = x]
+                           IN [from |-> p.from, index |-> p.index, acks |-> Range(p.acks)]]]
+LogOf(g) == [offset |-> g.offset, uents |-> g.uents, usnap |-> SnapOf(g.usnap), committed |-> g.committed,
+             persisted |-> g.persisted, applied |-> g.applied, maul |-> g.maul]
+NodeOf(v) ==
+    [id |-> v.id, term |-> v.term, vote |-> v.vote, role |-> v.role, lead |-> v.lead, ee |-> v.ee, he |-> v.he,
+     rt |-> v.rt, lte |-> v.lte, pci |-> v.pci, prs |-> v.prs, promotable |-> v.promotable, prio |-> v.prio,
+     votes |-> VotesOf(v.votes), conf |-> ConfOf(v.conf), pr |-> PrOf(v.pr), ro |-> RoOf(v.ro),
+     readStates |-> v.readStates, msgs |-> MsgsOf(v.msgs), log |-> LogOf(v.log), rn |-> v.rn,
+     usz |-> v.usz, lti |-> v.lti, checkQuorum |-> v.checkQuorum, preVote |-> v.preVote,
+     skipBcastCommit |-> v.skipBcastCommit, batchAppend |-> v.batchAppend,
+     maxCommittedSize |-> v.maxCommittedSize, groupCommit |-> v.groupCommit, pan |-> FALSE]
+StorOf(s) == [hs |-> s.hs, conf |-> ConfOf(s.conf), ti |-> s.ti, tt |-> s.tt, ents |-> s.ents,
+              snapi |-> s.snapi, snapt |-> s.snapt, snapconf |-> ConfOf(s.snapconf), snapdata |-> s.snapdata]
+RdOf(r) == [r EXCEPT !.snap = SnapOf(r.snap), !.msgs = MsgsOf(r.msgs), !.pmsgs = MsgsOf(r.pmsgs)]
+ArgOf(e) == IF e.ev = "Deliver" THEN [e.a EXCEPT !.m = MsgOf(e.a.m)] ELSE e.a
+EvtOf(e) == [ev |-> e.ev, n |-> e.n, a |-> ArgOf(e), rk |-> e.rk, hr0 |-> e.hr0, hr |-> e.hr,
+             gen |-> MsgsOf(e.gen), out |-> MsgsOf(e.out), rd |-> RdOf(e.rd)]
 
 NoNode == [id |-> 0]
-NoStor == [hs |-> EmptyHS, conf |-> EmptyConf, ti |-> 0, tt |-> 0, ents |-> <<>>, snapi |-> 0, snapt |-> 0]
-NoApp == [applied |-> 0, sm |-> ""]
+NoStor == [hs |-> EmptyHS, conf |-> EmptyConf, ti |-> 0, tt |-> 0, ents |-> <<>>, snapi |-> 0, snapt |-> 0,
+           snapconf |-> EmptyConf, snapdata |-> ""]
+NoApp == [applied |-> 0, sm |-> "", queue |-> <<>>]
 NoEvt == [ev |-> "None", n |-> 0, a |-> [x |-> 0], rk |-> "ok", hr0 |-> FALSE, hr |-> FALSE,
           gen |-> <<>>, out |-> <<>>, rd |-> [number |-> 0]]
 NoPre == [up |-> FALSE, node |-> NoNode, stor |-> NoStor, handedTo |-> 0]
+NoRdi == [number |-> 0, hasSS |-> FALSE, lead |-> 0, role |-> "F", hasHS |-> FALSE, hs |-> EmptyHS]
 
 TraceInit ==
     /\ l = 1 /\ run = 0
@@ -42,9 +77,92 @@ TraceInit ==
     /\ pre = NoPre
     /\ evt = NoEvt
     /\ gh = GhostInit
+    /\ rdi = [j \in Nodes |-> NoRdi]
 
-EvtOf(e) == [ev |-> e.ev, n |-> e.n, a |-> e.a, rk |-> e.rk, hr0 |-> e.hr0, hr |-> e.hr,
-             gen |-> e.gen, out |-> e.out, rd |-> e.rd]
+-----------------------------------------------------------------------------
+(* (1) conformance: successor of the acting node according to the specification *)
+
+RECURSIVE ApplyQueued(_, _, _, _, _, _)
+(* the application applies queued entries with index <= k: conf entries go through apply_conf_change *)
+ApplyQueued(n, st, c, q, applied, k) ==
+    IF q = <<>> \/ q[1].i > k THEN n
+    ELSE LET e == q[1]
+             n1 == IF e.i > applied /\ IsConfEntry(e) /\ e.p # "?"
+                   THEN LET r == ApplyConfChange(n, st, c, e.tr, e.ch) IN IF r.ok THEN r.n ELSE n
+                   ELSE n
+         IN ApplyQueued(n1, st, c, Tail(q), Max(applied, e.i), k)
+QueueLast(a) == IF a.queue = <<>> THEN 0 ELSE Last(a.queue).i
+
+NE(n, err) == [n |-> n, err |-> err]
+Expected(e, A) ==       \* A = converted args;  = [n, err] (+ rd / light where applicable)
+    LET j == e.n
+        N == node[j]
+        S == stor[j]
+        C == cfg[j]
+        RT == IF e.up THEN e.s.rt ELSE N.rt
+    IN CASE e.ev = "Tick" -> NE(Tick(N, S, C, RT), FALSE)
+         [] e.ev = "Deliver" -> RawStep(N, S, C, A.m, RT)
+         [] e.ev = "Propose" -> RawPropose(N, S, C, <<DataEntry(A.p, A.sz)>>, RT)
+         [] e.ev = "ProposeBatch" -> RawPropose(N, S, C, A.ents, RT)
+         [] e.ev = "ProposeConf" ->
+                RawProposeConf(N, S, C, [EmptyEntry EXCEPT !.ty = IF A.v1 THEN "C1" ELSE "C2", !.tr = A.tr,
+                                                            !.ch = A.ch, !.sz = A.sz], RT)
+         [] e.ev = "ReadIndex" -> RawReadIndex(N, S, C, A.ctx, RT)
+         [] e.ev = "Transfer" -> RawTransfer(N, S, C, A.to, RT)
+         [] e.ev = "Campaign" -> RawCampaign(N, S, C, RT)
+         [] e.ev = "Ping" -> NE(RawPing(N), FALSE)
+         [] e.ev = "Unreachable" -> NE(RawUnreachable(N, S, C, A.j, RT).n, FALSE)
+         [] e.ev = "ReportSnap" -> NE(RawReportSnapshot(N, S, C, A.j, A.ok, RT).n, FALSE)
+         [] e.ev = "RequestSnap" -> RawRequestSnapshot(N, S)
+         [] e.ev = "Ready" -> LET r == Ready(N, S, C) IN [n |-> r.n, err |-> FALSE, rd |-> r.rd]
+         [] e.ev = "AdvanceAsync" -> NE(AdvanceAppendAsync(N, rdi[j]), FALSE)
+         [] e.ev = "AdvanceAppend" ->
+                LET r == AdvanceAppend(N, S, C, rdi[j]) IN [n |-> r.n, err |-> FALSE, light |-> r.light]
+         [] e.ev = "Advance" ->
+                LET n1 == ApplyQueued(N, S, C, app[j].queue, app[j].applied, QueueLast(app[j]))
+                    r == Advance(n1, S, C, rdi[j])
+                IN [n |-> r.n, err |-> FALSE, light |-> r.light]
+         [] e.ev = "Notify" -> NE(OnPersistReady(N, S, C, A.number), FALSE)
+         [] e.ev = "Apply" ->
+                NE(AdvanceApplyTo(ApplyQueued(N, S, C, app[j].queue, app[j].applied, A.k), S, C, A.k), FALSE)
+         [] e.ev \in {"Restart", "Init"} -> NE(NewNode(j, StorOf(e.st), A.knobs, A.applied, RT), FALSE)
+         [] OTHER -> NE(N, FALSE)
+
+Conformable(e) ==
+    /\ e.n \in Nodes
+    /\ e.ev \in {"Tick", "Deliver", "Propose", "ProposeBatch", "ProposeConf", "ReadIndex", "Transfer", "Campaign",
+                 "Ping", "Unreachable", "ReportSnap", "RequestSnap", "Ready", "AdvanceAsync", "AdvanceAppend",
+                 "Advance", "Notify", "Apply", "Restart", "Init"}
+    /\ (e.ev \notin {"Restart", "Init"} => up[e.n])
+
+NodeDiff(x, q) ==
+    IF DOMAIN x # DOMAIN q THEN {"<shape>"}
+    ELSE {f \in DOMAIN q \ {"msgs"} : x[f] # q[f]} \cup (IF SameBag(x.msgs, q.msgs) THEN {} ELSE {"msgs"})
+RdDiff(x, q) ==
+    {f \in {"number", "hasHS", "hs", "hasSS", "ents", "snap", "committed", "readStates", "mustSync"} : x[f] # q[f]}
+    \cup (IF SameBag(x.msgs, q.msgs) THEN {} ELSE {"rd.msgs"})
+    \cup (IF SameBag(x.pmsgs, q.pmsgs) THEN {} ELSE {"rd.pmsgs"})
+LightDiff(x, q) ==
+    {f \in {"committed", "commitIndex"} : x[f] # q[f]} \cup (IF SameBag(x.msgs, q.msgs) THEN {} ELSE {"light.msgs"})
+
+Drift(e) ==
+    IF ~Conformable(e) THEN {}
+    ELSE LET ev == EvtOf(e)
+             x == Expected(e, ev.a)
+         IN IF e.rk = "panic" THEN (IF x.n.pan THEN {} ELSE {"<impl panicked, spec did not>"})
+            ELSE IF ~e.up THEN {}
+            ELSE IF x.n.pan THEN {"<spec predicts a panic>"}
+            ELSE NodeDiff(x.n, NodeOf(e.s))
+                 \cup (IF x.err # (e.rk = "err") THEN {"<result>"} ELSE {})
+                 \cup (IF e.ev = "Ready" THEN RdDiff(x.rd, ev.rd) ELSE {})
+                 \cup (IF e.ev \in {"Advance", "AdvanceAppend"} THEN LightDiff(x.light, ev.rd) ELSE {})
+
+ReportDrift(e) ==
+    IF ~CheckConformance THEN TRUE
+    ELSE LET d == Drift(e) IN IF d = {} THEN TRUE ELSE PrintT(<<"DRIFT", e.ev, d, l, run, e.seq>>)
+
+-----------------------------------------------------------------------------
+(* (2) adoption of the implementation state, ghost update, property evaluation *)
 
 ResetAll(e) ==
     /\ node' = [j \in Nodes |-> NoNode]
@@ -56,24 +174,30 @@ ResetAll(e) ==
     /\ pre' = NoPre
     /\ evt' = NoEvt
     /\ gh' = GhostInit
+    /\ rdi' = [j \in Nodes |-> NoRdi]
     /\ run' = e.run
 
 NetEvent(e) ==
-    /\ UNCHANGED <<node, up, stor, dur, app, cfg, run>>
+    /\ UNCHANGED <<node, up, stor, dur, app, cfg, run, rdi>>
     /\ pre' = NoPre
     /\ evt' = [NoEvt EXCEPT !.ev = e.ev]
     /\ gh' = gh
 
 NodeEvent(e) ==
     LET j == e.n IN
+    /\ ReportDrift(e)
     /\ node' = [node EXCEPT ![j] = IF e.up THEN NodeOf(e.s) ELSE @]
     /\ up' = [up EXCEPT ![j] = e.up]
-    /\ stor' = IF e.full THEN [stor EXCEPT ![j] = e.st] ELSE stor
-    /\ dur' = IF e.full THEN [dur EXCEPT ![j] = e.du] ELSE dur
+    /\ stor' = IF e.full THEN [stor EXCEPT ![j] = StorOf(e.st)] ELSE stor
+    /\ dur' = IF e.full THEN [dur EXCEPT ![j] = StorOf(e.du)] ELSE dur
     /\ app' = IF e.full THEN [app EXCEPT ![j] = e.ap] ELSE app
     /\ cfg' = IF e.ev \in {"Init", "Restart"} THEN [cfg EXCEPT ![j] = e.a.knobs] ELSE cfg
     /\ pre' = [up |-> up[j], node |-> node[j], stor |-> stor[j], handedTo |-> gh.handedTo[j]]
     /\ evt' = EvtOf(e)
+    /\ rdi' = IF e.ev = "Ready" /\ e.rk = "ok"
+              THEN [rdi EXCEPT ![j] = [number |-> e.rd.number, hasSS |-> e.rd.hasSS, lead |-> node[j].lead,
+                                       role |-> node[j].role, hasHS |-> e.rd.hasHS, hs |-> e.rd.hs]]
+              ELSE rdi
     /\ gh' = GhostNext(gh, EvtOf(e), node'[j], stor'[j], dur'[j], app'[j], e.up)
     /\ UNCHANGED run
 
